@@ -7,7 +7,7 @@ use crate::engines::sniff::*;
 pub fn run(ctx: &Ctx) -> i32 {
     let started = Instant::now();
     if let Some(path) = &ctx.replay {
-        return match read_replay(path).and_then(|rf| replay_one(ctx, &SniffEngine, &rf)) {
+        return match read_replay(path).and_then(|rf| if rf.engine == "srvsniff" { replay_one(ctx, &SrvSniffEngine, &rf) } else { replay_one(ctx, &SniffEngine, &rf) }) {
             Ok(c) => c,
             Err(e) => {
                 eprintln!("replay failed: {e}");
@@ -43,6 +43,9 @@ pub fn run(ctx: &Ctx) -> i32 {
     o.extra.insert("enumerated_cut_plans".into(), serde_json::json!(n_listed));
     total.merge(o);
     total.merge(run_generated(ctx, &SniffEngine, "grammar", strategy, ctx.cases(150_000, 4_000_000), 400));
+    // servers built through Server::builder(): with_auto_http() against with_http1() / with_http2(), the
+    // client pausing in the middle of its bytes
+    total.merge(run_generated(ctx, &SrvSniffEngine, "server-builder-with-pauses", srv_strategy, ctx.cases(20_000, 600_000), 200));
     if ctx.tier == Tier::Thorough && std::env::var_os("VERIF_NO_FUZZ").is_none() {
         let mut seed1 = vec![3u8, 4, 9, 1, 0, 0, 0, 0, 0, 2, 1, 0, 20];
         seed1.extend_from_slice(b"GET / HTTP/1.1\r\nhost: a\r\n\r\n");
